@@ -83,6 +83,18 @@ def hdc_case(draw, tier, dims=(2, 2, 2, 3), bimodal=False):
             case["deltas"] = None  # 0.25 % of the range -> 401 cells per axis
         else:
             case["mode"] = "explicit"
+    # an all-integer grid (limits and cell sizes handed over as Python ints, e.g. limits=[(0, 20), (0, 20)], deltas=[1, 1]):
+    # seeded change C02e (a buffer of the grid's dtype truncates the cell probabilities). Only where every axis keeps >= 10 cells.
+    if case["mode"] == "explicit" and draw(st.integers(0, 3)) == 0 and min(uppers) >= 10.0:
+        ilims = [[0, int(math.ceil(u))] for u in uppers]
+        if np.isscalar(case["deltas"]):
+            idel = max(1, int(round(case["deltas"])))
+            ok = all(l[1] / idel >= 10 for l in ilims)
+        else:
+            idel = [max(1, int(round(d))) for d in case["deltas"]]
+            ok = all(l[1] / d >= 10 for l, d in zip(ilims, idel))
+        if ok:
+            case["limits"], case["deltas"], case["int_grid"] = ilims, idel, True
     return case
 
 
@@ -203,5 +215,6 @@ def classes(case):
         out.append("deltas=scalar")
     else:
         out.append("deltas=list")
+    out.append("grid=int" if case.get("int_grid") else "grid=float")
     out.append(f"alpha_decade={int(math.floor(math.log10(case['alpha'])))}")
     return out
